@@ -304,6 +304,44 @@ def get_results(tier):
         fcntl.flock(lock, fcntl.LOCK_UN)
 
 
+# ------------------------------------------------------------------ replay against the real crate
+REPLAY = os.path.join(BUILD, "replay-target", "release", "replay")
+SCENARIOS = {"take": ["take1", "take2"], "map": ["map"], "filter": ["filter"], "scan": ["scan"], "skip": ["skip1"], "from_iter": ["from_iter"],
+             "concat": ["concat2"], "concat0": ["concat0"], "flatten": ["flatten"], "merge": ["merge2", "merge3"], "mergeL": ["merge2L"],
+             "combine1": ["combine2"], "combine2": ["combine2"], "combine3": ["combine2"], "share": ["share2"]}
+
+
+def build_replay():
+    """(re)build the replay harness against /repo's current working tree"""
+    env = dict(os.environ, CARGO_NET_OFFLINE="true")
+    env.pop("RUSTUP_TOOLCHAIN", None)
+    p = sh(["cargo", "build", "--release", "--offline", "--manifest-path", os.path.join(VERIF, "replay", "Cargo.toml"), "--target-dir", os.path.join(BUILD, "replay-target")], env=env)
+    return p.returncode == 0
+
+
+def replay_run(scenario, tape):
+    p = sh([REPLAY, "run", scenario, json.dumps(tape)])
+    try:
+        return json.loads(p.stdout)
+    except Exception:
+        return None
+
+
+def replay_search(template, pid, secs=90):
+    if not build_replay():
+        return None
+    for sc in SCENARIOS.get(template, []):
+        try:
+            p = subprocess.run([REPLAY, "search", sc, "--property", pid, "--len", "10", "--budget", "1500000"], capture_output=True, text=True, timeout=secs)
+            d = json.loads(p.stdout)
+        except Exception:
+            continue
+        if d.get("tape") is not None:
+            d["scenario"] = sc
+            return d
+    return None
+
+
 # ------------------------------------------------------------------ per property
 def load_findings():
     if os.path.exists(FINDINGS):
@@ -420,6 +458,13 @@ def main():
             print(f"UNDECIDED unit={u['unit']}: {u.get('why','')[:1500]}", file=sys.stderr)
         sys.exit(2)
     write_evidence(a.property, a.tier, res, relevant, viol, known, time.time() - t0)
+    if a.tier == "thorough" and known and build_replay():
+        for f in {id(f): f for (_, _, f) in known}.values():
+            r = f.get("replay")
+            if r:
+                d = replay_run(r["scenario"], r["tape"])
+                ok = bool(d) and any(r["expect"] in v["what"] for v in d.get("violations", []))
+                print(f"  replayed {f.get('id')} on the real crate: {r['scenario']} {r['tape']} -> {'reproduced' if ok else 'NOT reproduced'}")
     seen = set()
     for (u, e, f) in known:
         k = (f.get("id"), u["template"])
@@ -430,17 +475,25 @@ def main():
     if viol:
         os.makedirs(os.path.join(EVID, "replay"), exist_ok=True)
         done = set()
+        cex_cache = {}
         for (u, e) in viol:
             oid = obligation_id(u, e)
             if oid in done:
                 continue
             done.add(oid)
             path = os.path.join(EVID, "replay", f"{a.property}-{re.sub(r'[^A-Za-z0-9_.#-]', '_', oid)[:150]}.json")
+            cex = cex_cache.get(u["template"])
+            if cex is None and u["template"] not in cex_cache:
+                cex = cex_cache[u["template"]] = replay_search(u["template"], a.property)
             json.dump({"property": a.property, "obligation": oid, "unit": u["unit"], "function": e.get("fn"), "site": e.get("site"),
                        "clause": e.get("clause"), "clause_text": e.get("clause_text"), "statement": e.get("text"), "verifier_message": e.get("message"),
-                       "verifier_output": e.get("rendered"), "failing_input": None,
-                       "note": "Verus gives no counterexample; no failing input was found by this check"}, open(path, "w"), indent=1)
-            print(f"VIOLATION property={a.property} replay={path} no-failing-input-found")
+                       "verifier_output": e.get("rendered"),
+                       "failing_input": ({"scenario": cex["scenario"], "tape": cex["tape"], "violations": cex["violations"], "history": cex["history"],
+                                          "replay_cmd": f"{REPLAY} run {cex['scenario']} '{json.dumps(cex['tape'])}'"} if cex else None),
+                       "note": ("failing history found by exhaustive tape search against the real crate and replayed there" if cex else
+                                "Verus gives no counterexample; the bounded tape search against the real crate found no failing history for this property")},
+                      open(path, "w"), indent=1)
+            print(f"VIOLATION property={a.property} replay={path}" + ("" if cex else " no-failing-input-found"))
         sys.exit(1)
     n = sum(1 for u in relevant)
     print(f"OK property={a.property} tier={a.tier} units={n} cached={res.get('cached')} wall={time.time()-t0:.1f}s")
